@@ -35,15 +35,30 @@ func extraCmd3(name string, args []string) bool {
 	dumpIR := fs.String("dump-ir", "", "write the module text here")
 	abi := fs.Int("abi", 0, "llgo ABI mode")
 	debug := fs.Bool("debug", false, "")
+	initFirst := fs.Bool("init-first", false, "run the package initialiser on both sides before each function")
+	pkgs := fs.String("pkgs", "", "comma separated additional package paths of the harness program (multi-package)")
+	mergeOnly := fs.Bool("merge", false, "check equivalence of multiply-defined mergeable symbols instead of functions")
 	fpRange := fs.Bool("assume-fp-range", false, "float->int conversions: assume the value is representable in the result type")
 	fs.Parse(args)
 
 	t0 := time.Now()
-	mods, err := llfe.BuildModules(*src, []string{"."}, map[string]bool{*pkgpath: true}, *dumpIR != "", *abi)
+	wantPkgs := map[string]bool{*pkgpath: true}
+	if *pkgs != "" {
+		for _, p := range strings.Split(*pkgs, ",") {
+			wantPkgs[p] = true
+		}
+	}
+	mods, err := llfe.BuildModules(*src, []string{"."}, wantPkgs, *dumpIR != "", *abi)
 	if err != nil {
 		fatal(fmt.Errorf("llgo build of harness package failed: %w", err))
 	}
 	mod := mods[*pkgpath]
+	allMods := []*llfe.Module{mod}
+	for p, m := range mods {
+		if p != *pkgpath {
+			allMods = append(allMods, m)
+		}
+	}
 	if *dumpIR != "" {
 		os.WriteFile(*dumpIR, []byte(mod.Text), 0644)
 	}
@@ -79,13 +94,45 @@ func extraCmd3(name string, args []string) bool {
 		fns = append(fns, prog.Main.Func(n))
 	}
 	var results []HarnessResult
+	if *mergeOnly {
+		solver := smt.NewSolver(*timeout)
+		solver.AbsDiv = true
+		m := core.NewMachine(solver)
+		m.Deadline = time.Now().Add(time.Duration(*deadline) * time.Second)
+		st := time.Now()
+		drv := tv.New(m, prog, rtp, allMods, *pkgpath)
+		syms := tv.RunMerge(m, allMods, drv, *prefix)
+		solver.Close()
+		r := HarnessResult{Name: "merge", Unwind: *unwind}
+		r.Paths, r.PathsEnded, r.Obligations, r.Discharged = m.Paths, m.PathsEnded, m.Obligations, m.Discharged
+		r.Failures, r.Inconclusive, r.Reached, r.Samples, r.OblIDs = m.Failures, m.Inconclusives, m.Reached, m.Samples, m.OblIDs
+		if len(r.Reached) == 0 {
+			r.Reached = map[string]int{"merge": 1}
+		}
+		for _, sres := range syms {
+			r.Encoded = append(r.Encoded, sres.Kind+" @"+sres.Symbol+" in "+strings.Join(sres.Modules, ","))
+		}
+		s := solver.Stats
+		r.Queries, r.Sat, r.Unsat, r.Unknown, r.SolverErrors = s.Queries, s.Sat, s.Unsat, s.Unknown, s.Errors
+		r.SolverSeconds, r.BySolver, r.WallSeconds = s.Time.Seconds(), s.BySolver, time.Since(st).Seconds()
+		results = append(results, r)
+		fmt.Fprintf(os.Stderr, "merge: %d multiply-defined symbols, obl=%d/%d fail=%d inconcl=%d\n", len(syms), r.Discharged, r.Obligations, len(r.Failures), len(r.Inconclusive))
+		fns = nil
+	}
 	for _, fn := range fns {
 		solver := smt.NewSolver(*timeout)
 		solver.AbsDiv = true
 		m := core.NewMachine(solver)
 		m.Debug = *debug
 		m.Deadline = time.Now().Add(time.Duration(*deadline) * time.Second)
-		d := tv.New(m, prog, rtp, []*llfe.Module{mod}, *pkgpath)
+		d := tv.New(m, prog, rtp, allMods, *pkgpath)
+		d.InitFirst = *initFirst
+		if *initFirst {
+			d.G.Cfg.RunInit = map[string]bool{}
+			for p := range wantPkgs {
+				d.G.Cfg.RunInit[p] = true
+			}
+		}
 		d.Prefix = *prefix
 		d.SliceN = *sliceN
 		d.AssumeFPRange = *fpRange
